@@ -222,6 +222,13 @@ def check (c):
     if not ok:
         return dict (status = 'discard', reason = 'validity: ' + why [0])
     mf   = gen.build (mirrored (spec))
+    byt  = int (common.sha ([spec ['geo'], spec ['src']]), 16) % 3
+    if byt == 0:
+        # the sources of the model over ground named object by object (k-th pulse of the object with that tag)
+        gen.readdress_by_tag (mg)
+        if [s.idx for s in mg.sources] != [s.idx for s in gen.build (spec).sources]:
+            return dict (status = 'violation', sig = 'by-tag', nontrivial = True, monitors = dict (addressing = 1)
+                        , violations = [dict (monitor = 'addressing', key = 'by-tag-source-pulse', msg = 'sources named object by object land on other pulses')])
     observe.solve (mg)
     observe.solve (mf)
     if not (mg.power > 0 and mf.power > 0):
@@ -264,8 +271,10 @@ def check (c):
         rel = abs (zg - want) / abs (want)
         judge ('impedance', rel, tol, 'feed impedance %r over ground, %r from the mirrored model (%s source; largest current / feed current = %.3g)' % (zg, want, 'base' if base else 'elevated', famp)
               , key = observe.imp_key (rel, tol, famp))
-    pg = np.array (observe.pattern (mg, nth = 9, nph = 8, th0 = 3.0, th1 = 87.0).gain)
-    pf = np.array (observe.pattern (mf, nth = 9, nph = 8, th0 = 3.0, th1 = 87.0).gain)
+    # (the gain does not depend on the power level or distance a field strength is asked for with it)
+    kwp = [dict (), dict (pwr = 100.0), dict (pwr = 0.5, dist = 1000.0)] [int (common.sha ([spec ['geo'], 'pwr']), 16) % 3]
+    pg = np.array (observe.pattern (mg, nth = 9, nph = 8, th0 = 3.0, th1 = 87.0, **kwp).gain)
+    pf = np.array (observe.pattern (mf, nth = 9, nph = 8, th0 = 3.0, th1 = 87.0, **kwp).gain)
     mxg = pg [..., 2].max ()
     for col, nm in ((2, 'total'), (0, 'vertical'), (1, 'horizontal')):
         # on the scale of the main beam (total gain): in a null the allowed current deviation is a large factor of a small field
@@ -273,7 +282,7 @@ def check (c):
         judge ('gain.' + nm, dd + 1e-300, 0.01 + dcur + observe.gain_slack_db (mg, d), '%s gain over ground minus 3.0103 dB differs %.4f dB from the free-space pair' % (nm, dd))
     g0 = mg.geo [0]
     trivial = len (mg.geo) == 1 and kinds == ['b'] and abs (g0.p1 [0] - g0.p2 [0]) < 1e-12 and abs (g0.p1 [1] - g0.p2 [1]) < 1e-12
-    sig = gen.signature (spec, mg, extra = ['feeds' + ''.join (sorted (kinds))])
+    sig = gen.signature (spec, mg, extra = ['feeds' + ''.join (sorted (kinds)), 'bytag' if byt == 0 else '', ','.join (sorted (kwp))])
     return dict ( status = 'violation' if viol else 'held', sig = sig, nontrivial = not trivial, margin = worst, margins = margins
                 , monitors = mon, violations = viol [:6], info = dict (cond = cond, N = len (mg.pulses)))
 # end def check
